@@ -969,4 +969,7 @@ def run(chk):
     sw = [n for n in walk(ot["body"]) if n["k"] == "Call" and (n.get("fn") or "").endswith("swap")]
     chk.instance(r_st, "orderTRACK:swap", sample=dict(swaps=[show(n) for n in sw]))
 
+    from verif import fallthrough
+    fallthrough.run(chk, "C06", floor=16)
+
     chk.assumptions += ["dimension table FIELDS/CELL in rules/C06.py (CF and Kh are L^3 in SI, Ke L^2, radii and lengths L, skin and the Peaceman denominator dimensionless); numeric literals are dimension-polymorphic (sentinels such as -1.0)"]
